@@ -1,0 +1,67 @@
+// Verification hooks. Compiled only with `--cfg fastrace_verif`; never part of a normal build.
+
+//! Introspection and scheduling hooks used by the external verification harness.
+
+use std::sync::Arc;
+
+use parking_lot::RwLock;
+
+/// A point in the library at which the installed hook is called.
+#[derive(Debug, Clone, Copy, PartialEq, Eq)]
+pub enum Point {
+    /// `spsc::Sender`: immediately before a push into the ring buffer.
+    SenderBeforePush,
+    /// `spsc::Sender`: a value has just been parked in the overflow list.
+    SenderParked,
+    /// `spsc::Receiver::try_recv`: the ring was found empty; the abandoned check comes next.
+    ReceiverEmpty,
+    /// `handle_commands`: start of a collector cycle.
+    CycleBegin,
+    /// `handle_commands`: about to drain the receiver at this position of the registry.
+    BeforeReceiver(usize),
+    /// `handle_commands`: the receiver at this position reported closed and is removed.
+    ReceiverRemoved(usize),
+    /// `handle_commands`: about to call the reporter with this many records.
+    BeforeReport(usize),
+}
+
+type Hook = Arc<dyn Fn(Point) + Send + Sync>;
+
+static HOOK: RwLock<Option<Hook>> = RwLock::new(None);
+
+/// Installs (or removes) the global hook.
+pub fn set_hook(hook: Option<Hook>) {
+    *HOOK.write() = hook;
+}
+
+#[inline]
+pub(crate) fn hook(point: Point) {
+    let h = HOOK.read().clone();
+    if let Some(h) = h {
+        h(point);
+    }
+}
+
+/// Snapshot of the collector's retained state.
+#[derive(Debug, Clone, Default, PartialEq, Eq)]
+pub struct CollectorStats {
+    /// `(collect_id, buffered span sets, parked events/properties)` per active collector.
+    pub active: Vec<(usize, usize, usize)>,
+    /// Number of registered per-thread receivers.
+    pub receivers: usize,
+}
+
+/// Runs one collector cycle on the calling thread.
+pub fn run_collector_cycle() {
+    crate::collector::global_collector::verif_run_cycle();
+}
+
+/// Returns what the collector currently retains.
+pub fn collector_stats() -> CollectorStats {
+    crate::collector::global_collector::verif_stats()
+}
+
+/// Makes sure the calling thread's command sender exists and is registered.
+pub fn touch_sender() {
+    crate::collector::global_collector::verif_touch_sender();
+}
